@@ -57,7 +57,7 @@ func (Engine) Describe(prop string) core.Description {
 			"'names it back' is read on names only; a state whose only offence is a reciprocal with another target type is not judged either way",
 			"the soundness/completeness law is a pure function of the state and is sampled on the states histories reach, not enumerated",
 		}
-		d.Probes = []string{"state-clean", "state-offending", "state-mistyped-inverse-only", "state-fromtype-mismatch", "state-dangling-target", "state-unreciprocated"}
+		d.Probes = []string{"state-clean", "state-offending", "state-mistyped-inverse-only", "state-fromtype-mismatch", "state-dangling-target", "state-unreciprocated", "state-own-inverse", "state-bulk-offenders"}
 	case "C16":
 		d.Rule = "one run = one seeded coherent schema (types, one-way relationships, two-way pairs over names whose concatenations and underscore joins collide) built three times in permuted type/relationship order; Rels() of the three under different map orders must be one list with each one-way relationship once and one member of each pair; " +
 			"algebraic laws of Invert/Normalize/String are evaluated on every relationship created; non-trivial = schema with >=1 two-way pair or >=2 relationships; distinct = distinct event-log hash"
@@ -85,6 +85,9 @@ type hist struct {
 	prop  string
 	steps int
 	succ  int
+	// bulked: a type with many relationships was added; the run ends after the
+	// next observation (every further step would cost as much as a whole run)
+	bulked bool
 }
 
 func (h *hist) name() string { return h.names[h.t.Draw(len(h.names))] }
@@ -100,7 +103,18 @@ func (h *hist) existingType() string {
 func (h *hist) attr() jsonapi.Attr {
 	kind := h.t.Range(1, 14)
 	if h.t.Bool(1, 12) {
-		kind = []int{0, 15, -1}[h.t.Draw(3)]
+		// invalid kinds: the neighbours of the valid range, and valid kinds shifted by
+		// multiples of 256 / 65536 (a narrowing conversion must not make them valid)
+		switch h.t.Draw(4) {
+		case 0:
+			kind = []int{0, 15, -1}[h.t.Draw(3)]
+		case 1:
+			kind += 256 * h.t.Range(1, 3)
+		case 2:
+			kind -= 256
+		default:
+			kind += 65536 * h.t.Range(1, 2)
+		}
 	}
 
 	return jsonapi.Attr{Name: h.name(), Type: kind, Nullable: h.t.Bool(1, 2)}
@@ -196,6 +210,35 @@ func (h *hist) step() (v *core.Violation, aborted bool) {
 		isRemove bool
 		absent   bool
 	)
+
+	if h.prop == "C15" && t.Bool(1, 60) {
+		// one type with many relationships at once (dangling and two-way: two errors
+		// each in today's Check), so that "one error per offender" is also exercised
+		// far beyond a screenful of errors
+		n := h.name()
+		rels := map[string]jsonapi.Rel{}
+		cnt := t.Range(40, 130)
+
+		for i := 0; i < cnt; i++ {
+			rn := fmt.Sprintf("bulk%d", i)
+			rels[rn] = jsonapi.Rel{FromType: n, FromName: rn, ToType: "nowhere", ToName: "back", ToOne: i%2 == 0}
+		}
+
+		h.st.Inc("probe:state-bulk-offenders")
+
+		var err error
+
+		if p := core.Call(func() { err = s.AddType(jsonapi.Type{Name: n, Rels: rels}) }); p != nil {
+			return nil, true
+		}
+
+		t.Logf("AddType(%q with %d dangling two-way relationships) -> err=%v", n, cnt, err)
+		m.resync(s)
+		h.steps++
+		h.bulked = true
+
+		return nil, false
+	}
 
 	switch op := t.Draw(16); {
 	case op < 3: // AddType
@@ -535,13 +578,42 @@ func (h *hist) lookups() *core.Violation {
 	return nil
 }
 
-func (h *hist) pickNames() {
-	n := h.t.Range(3, 7)
-	perm := core.NewRng(h.t.Seed64()).Perm(len(pool))
-	h.names = nil
+// namePool builds the run's name pool. Besides the fixed pool it holds names made
+// of single letters joined by one separator drawn per run, so that any way of
+// joining two names with that separator is ambiguous ("a" + sep + "b.c" against
+// "a.b" + sep + "c"); names equal up to case; names equal up to leading zeros of
+// a number; and the member names a JSON:API document reserves (id, type).
+func namePool(t *core.Tape) []string {
+	sep := []string{".", "_", "-", ":", " ", "/", ""}[t.Draw(7)]
+	p := append([]string{}, pool...)
 
-	for _, i := range perm[:n] {
-		h.names = append(h.names, pool[i])
+	for _, x := range []string{"a", "b", "c"} {
+		for _, y := range []string{"a", "b", "c"} {
+			p = append(p, x+sep+y)
+		}
+	}
+
+	p = append(p, "a"+sep+"b"+sep+"c", "A", "Ab", "aB", "id", "type", "r1", "r01", "r001", "r10", "r2")
+
+	return p
+}
+
+func (h *hist) pickNames() {
+	p := namePool(h.t)
+	n := h.t.Range(3, 7)
+	perm := core.NewRng(h.t.Seed64()).Perm(len(p))
+	h.names = nil
+	seen := map[string]bool{}
+
+	for _, i := range perm {
+		if len(h.names) == n {
+			break
+		}
+
+		if !seen[p[i]] {
+			seen[p[i]] = true
+			h.names = append(h.names, p[i])
+		}
 	}
 }
 
@@ -616,7 +688,7 @@ func (e Engine) Run(prop string, t *core.Tape, st *core.Stats) *core.Violation {
 		st.Steps++
 		unobserved = true
 
-		if h.steps%every != 0 {
+		if h.steps%every != 0 && !h.bulked {
 			continue
 		}
 
@@ -624,6 +696,10 @@ func (e Engine) Run(prop string, t *core.Tape, st *core.Stats) *core.Violation {
 
 		if v, stop := observe(); stop {
 			return v
+		}
+
+		if h.bulked {
+			break
 		}
 	}
 
